@@ -107,6 +107,25 @@ def wrap_unmanaged(rng, e, depth=0):
     return valgen.render(e)
 
 
+# the same snapshot() call evaluated several times with an unchanged argument whose type is a SUBCLASS of list / dict / tuple
+_SUB_HDR = ("from collections import OrderedDict, defaultdict\nfrom inline_snapshot import snapshot, Is\n\n\nclass LS(list):\n    pass\n\n\nclass DS(dict):\n    pass\n\n\n"
+            "class TS(tuple):\n    pass\n\n")
+SUBCLASS_PROGS = [
+    (_SUB_HDR, "    for _ in range(3):\n"
+               "        rec(0, lambda: OrderedDict(a=1, b=[2]) == snapshot(OrderedDict({'a': 1, 'b': [2]})))\n"
+               "        rec(1, lambda: LS([1, 2]) == snapshot(LS([1, 2])))\n"
+               "        rec(2, lambda: [DS(k=1)] == snapshot([DS({'k': 1})]))\n"
+               "        rec(3, lambda: {'x': LS([3])} == snapshot({'x': LS([3])}))\n"
+               "        rec(4, lambda: TS((1, 2)) == snapshot(TS((1, 2))))\n"
+               "        rec(5, lambda: defaultdict(list, {'a': [1]}) == snapshot(defaultdict(list, {'a': [1]})))\n"),
+    (_SUB_HDR, "    for _ in range(2):\n"
+               "        rec(0, lambda: 2 in snapshot(LS([1, 2])))\n"
+               "        rec(1, lambda: LS([1]) <= snapshot(LS([1, 2])))\n"
+               "        rec(2, lambda: snapshot({'k': OrderedDict(a=1)})['k'] == OrderedDict(a=1))\n"
+               "        rec(3, lambda: OrderedDict(a=2) == snapshot(OrderedDict({'a': 1})))\n"
+               "        rec(4, lambda: [LS([Is(1)])] == snapshot([LS([Is(1)])]))\n"),
+]
+
 IDENT = "\ndef snapshot(x):\n    return x\n\ndef Is(x):\n    return x\n\n"
 
 
@@ -284,6 +303,7 @@ def run(ctx: Ctx):
     # B
     m = 300 if not ctx.thorough else 3000
     progs = [gen_diff_program(ctx.rng, rich=(i % 2 == 0)) for i in range(m)]
+    progs += SUBCLASS_PROGS
     outs = pmap(run_diff, progs, chunksize=4)
     ncmp = 0
     for p, o in zip(progs, outs):
